@@ -17,6 +17,7 @@
 import CSD.Lemmas.Codes
 import CSD.Lemmas.ChunkDec
 import CSD.Lemmas.ChunkDecAll
+import CSD.Lemmas.CodecRoundTrip
 import CSD.Generated.Bodies
 import CSD.Model.SourceText
 
@@ -84,6 +85,32 @@ theorem chunked_decoding_inverts_encoding (t : Tree) (k : Nat) (table : Nat → 
     (h : decodeAll table k fuel pend bytes w.length = some o) : o.take w.length = w :=
   decodeAll_spec t k table hT fuel pend bytes w enc rest o henc hnz hs h
 
+open CSD.StatCoder in
+/-- **`StatCoder::encodeSymbol` appends exactly the codeword** (model with the 32-bit shifts and the byte
+truncation of the C++): whatever the bit offset inside the byte under construction, the bit stream written
+afterwards is the bit stream written before followed by the `bits ≤ 32` bits of the codeword, most
+significant first. -/
+theorem encodeSymbol_appends_codeword (cw bits cur off : Nat) (done : List Nat) (hb : bits ≤ 32) (ho : off < 8)
+    (hc : Clean cur off) :
+    ∃ bytes cur' off', encodeSymbol cw bits cur off = some (bytes, cur', off') ∧ off' < 8 ∧ Clean cur' off' ∧
+      written (done ++ bytes) cur' off' = written done cur off ++ cwb cw bits :=
+  encodeSymbol_spec cw bits cur off done hb ho hc
+
+open CSD.StatCoder CSD.ChunkDec in
+/-- **Encode with `encodeString`, decode with the chunk table: the string comes back.** For every code
+tree, every codeword table that lists its paths, every sound chunk table and every string whose only
+terminator is its last symbol. -/
+theorem encodeString_then_table_decoding (t : Tree) (k : Nat) (table : Nat → Option Entry) (hT : TableOK t k table)
+    (cwOf : Nat → Nat × Nat) (hb : ∀ s, (cwOf s).2 ≤ 32) (w : List Nat) (hm : TableMatches t cwOf w)
+    (hnz : ∀ i, i + 1 < w.length → w[i]? ≠ some 0) (bytes : List Nat)
+    (he : encodeString cwOf w 0 0 [] = some bytes) (fuel : Nat) (o : List Nat)
+    (hd : decodeAll table k fuel [] bytes w.length = some o) : o.take w.length = w :=
+  encodeString_then_decodeAll t k table hT cwOf hb w hm hnz bytes he fuel o hd
+
+/-- Non-vacuity: the 3-bit codeword 101 written at offset 6 of a byte holding 11 completes the byte
+0b11_000000 ||| 0b10 = 194 and leaves one bit (1) in the next byte. -/
+example : StatCoder.encodeSymbol 5 3 192 6 = some ([194], 128, 1) := by decide
+
 open CSD.ChunkDec in
 /-- **The step never fails** — no table index without an entry, no byte read past the bucket — when the
 table covers all `2^k` indices and the stream starts with a whole codeword. -/
@@ -127,6 +154,8 @@ functions they mirror (`CSD/Generated/Bodies.lean` is re-extracted from the sour
 obligation even if no generated input tells the behaviours apart. -/
 theorem models_match_source_text :
     Generated.body_DecodingTable_getSubstring = SourceText.body_DecodingTable_getSubstring ∧
-    Generated.body_DecodingTable_processChunk = SourceText.body_DecodingTable_processChunk := ⟨rfl, rfl⟩
+    Generated.body_DecodingTable_processChunk = SourceText.body_DecodingTable_processChunk ∧
+    Generated.body_StatCoder_encodeSymbol = SourceText.body_StatCoder_encodeSymbol ∧
+    Generated.body_StatCoder_encodeString = SourceText.body_StatCoder_encodeString := ⟨rfl, rfl, rfl, rfl⟩
 
 end CSD.Props.C18
